@@ -77,6 +77,7 @@ inductive Env where | shutdown | cancelParent (t : Tid) | tick deriving Decidabl
 inductive Probe where
   | cancelled (cause : Bool)   -- the reader's rctx is done; cause = true: the configured error
   | notCancelled
+  | quiet                      -- the harness saw every goroutine of the primitive parked or blocked
   deriving DecidableEq, Repr
 
 /-- result: 0 ok, 1 ctx error, 2 lock closed -/
@@ -99,7 +100,7 @@ def launchAll (s : State) (byShutdown : Bool) : Nat → Option Grace := fun t =>
   if t < s.n ∧ s.live t = true then some { st := s.now, byShutdown := byShutdown, woke := none }
   else s.graces t
 
-def step (s : State) : L → Option State
+def stepCore (s : State) : L → Option State
   | .call t .lock =>
     if t < s.n then
       match s.pcs t with
@@ -225,6 +226,23 @@ def step (s : State) : L → Option State
     match s.pcs t with
     | .rHolding => if (s.told t).isNone && !s.parentDone t then some s else none
     | _ => none
+  | .probe _ .quiet => none
+
+/-- No goroutine of the primitive has an enabled step (timers excepted: whether a grace timer has
+fired is real time, observed separately). The harness reports this after it has seen every caller
+idle or blocked and every internal goroutine blocked in the runtime's wait states. -/
+def quiet (s : State) : Bool :=
+  ((List.range s.n).all fun t =>
+    (stepCore s (.tau t 0)).isNone && (stepCore s (.tau t 1)).isNone && (stepCore s (.tau t 2)).isNone &&
+    (stepCore s (.sys (t + 2) 1)).isNone && (stepCore s (.sys (t + 2) 2)).isNone &&
+    (match s.graces t with
+     | some g => g.woke.isNone
+     | none => true)) &&
+  (stepCore s (.sys 0 0)).isNone && (stepCore s (.sys 0 1)).isNone && (stepCore s (.sys 1 0)).isNone
+
+def step (s : State) : L → Option State
+  | .probe _ .quiet => if quiet s then some s else none
+  | a => stepCore s a
 
 def lts : LTS State L := ⟨step⟩
 
